@@ -7,16 +7,18 @@ With the honest hint (`none` = what `Fq::sqrt_ratio_zeta(&ONE, &den)` returns ou
   coordinates are the native ones;
 * `lazy_*`: forcing the encoding / the element of a lazily evaluated variable, in any order and any number of times,
   emits at most one gadget and never changes a value once it is defined.
-These are stated under `SRContract sqrtRatioArk` (the table-driven routine meets its contract, C09).
+They use `sarkar_contract` (the table-driven routine meets its contract, C09.ark_contract); no premise is left.
 -/
 import Decaf.Props.C14
+import Decaf.Lemmas.Sarkar
 
 namespace C13
 open Model Edwards Decaf
 
 /-- honest synthesis of isqrt is always satisfied and returns the native pair -/
-theorem isqrt_complete (h : SRContract sqrtRatioArk) {x : ℕ} (hx : x < q) :
+theorem isqrt_complete {x : ℕ} (hx : x < q) :
     ∃ f y, sqrtRatioArk 1 x = some (f, y) ∧ R1cs.isqrt x none = (true, f, y) := by
+  have h := sarkar_contract
   obtain ⟨f, y, hs, hy⟩ := h.total 1 x one_lt_q hx
   refine ⟨f, y, hs, ?_⟩
   have hone : (1 : ℕ) ≠ 0 := one_ne_zero
@@ -46,13 +48,13 @@ theorem isqrt_complete (h : SRContract sqrtRatioArk) {x : ℕ} (hx : x < q) :
       simp [this]
 
 /-- honest synthesis of the decode gadget: satisfied iff native decoding succeeds, same coordinates -/
-theorem decompress_complete_iff (h : SRContract sqrtRatioArk) {s : ℕ} (hs : s < q) :
+theorem decompress_complete_iff {s : ℕ} (hs : s < q) :
     ((R1cs.decompress s none).1 = true ↔ ∃ c, decodeField sqrtRatioArk s = .ok c) ∧
     (∀ c, decodeField sqrtRatioArk s = .ok c → (R1cs.decompress s none).2 = (c.X, c.Y)) := by
   unfold R1cs.decompress decodeField
   simp only []
   set den := fmul q (fsub q (fsq q (fsub q 1 (fsq q s))) (fmul q (fmul q 4 cD) (fsq q s))) (fsq q (fsub q 1 (fsq q s))) with hden
-  obtain ⟨f, v, hsr, hiq⟩ := isqrt_complete h (x := den) (fmul_lt q_pos _ _)
+  obtain ⟨f, v, hsr, hiq⟩ := isqrt_complete (x := den) (fmul_lt q_pos _ _)
   rw [hiq, hsr]
   by_cases hn : isNeg s = true
   · simp [hn]
